@@ -34,13 +34,75 @@ func (g *gen) genericDecl() string {
 	return name
 }
 
+// RawCases is the number of plain raw type cases; ExtInCases the number of
+// sibling-package-in-position cases (forced indices RawCases..RawCases+ExtInCases-1).
+const RawCases = 30
+const ExtInCases = 12
+
 // rawType creates a static type. Each call yields a type distinct from all
 // earlier ones (fresh named components).
+// extIn builds a composite type that mentions a sibling-package type in one
+// syntactic position; the import is needed only through that position.
+func (g *gen) extIn(which int) (string, string, []string) {
+	e := g.s.ExtPkgs[g.r.Intn(len(g.s.ExtPkgs))]
+	et := g.addType(&Type{Kind: KStruct, Name: g.typeName(), Pkg: e.Dir, Base: -1})
+	x := g.s.Expr(et, "")
+	names := []string{g.s.Types[et].Name}
+	if which < 0 {
+		which = g.r.Intn(12)
+	}
+	switch which {
+	case 0:
+		return "map[" + x + "]string", "ext-in-map-key", names
+	case 1:
+		return "map[string]" + x, "ext-in-map-value", names
+	case 2:
+		return "[]*" + x, "ext-in-slice", names
+	case 3:
+		return "[3]" + x, "ext-in-array", names
+	case 4:
+		return "<-chan " + x, "ext-in-chan", names
+	case 5:
+		return "func(" + x + ") error", "ext-in-func-param", names
+	case 6:
+		return "func() (*" + x + ", error)", "ext-in-func-result", names
+	case 7:
+		return "struct {\n\tA " + x + "\n}", "ext-in-struct-field", names
+	case 8:
+		return "interface{ Get() " + x + " }", "ext-in-iface-method", names
+	case 9:
+		g.genericDecl()
+		return "GBox[" + x + "]", "ext-in-generic-arg", names
+	case 10:
+		return "**" + x, "ext-in-ptr-ptr", names
+	default:
+		return "map[" + x + "][]func(*" + x + ") bool", "ext-in-nested", names
+	}
+}
+
 func (g *gen) rawType() int {
 	g.s.Dynamic = false
+	force := -1
+	if g.o.ForceRaw > 0 && !g.forced {
+		g.forced = true
+		force = g.o.ForceRaw - 1
+	}
+	if len(g.s.ExtPkgs) > 0 && ((force < 0 && g.r.Intn(4) == 0) || force >= RawCases) {
+		w := -1
+		if force >= RawCases {
+			w = force - RawCases
+		}
+		raw, feat, names := g.extIn(w)
+		g.feature(feat)
+		return g.addType(&Type{Kind: KRaw, Raw: raw, Base: -1, BaseVar: feat, RawNames: names})
+	}
 	n := g.rawNamed()
 	var raw, feat string
-	switch g.r.Intn(30) {
+	pick := g.r.Intn(RawCases)
+	if force >= 0 && force < RawCases {
+		pick = force
+	}
+	switch pick {
 	case 0:
 		raw, feat = "chan "+n, "chan"
 	case 1:
@@ -176,6 +238,12 @@ func (g *gen) hostileDecls() {
 		}
 		g.feature("pkglevel:" + lc)
 		k++
+	}
+	if g.r.Intn(6) == 0 {
+		// the user imports kessoku under an alias and owns the identifier "kessoku"
+		g.s.KessokuAlias = []string{"ksk", "di", "k"}[g.r.Intn(3)]
+		g.s.ExtraDecl += "var kessoku = \"user identifier\"\n"
+		g.feature("pkglevel:kessoku+aliased-import")
 	}
 	for _, n := range []string{"eg", "ctx", "ch", "zero", "err", "errgroup"} {
 		if g.r.Intn(12) == 0 && !used[n] {
